@@ -137,9 +137,12 @@ def expected_sigma(prog, I, board, prefix=''):
 
 
 def sqb_terms(h):
-    """row -> (BV, gate) of the bulk square terms of a hash form; several unconditional bulk terms of one row are one term
-    over the XOR of their square sets (the table term is linear in the set)"""
+    """row -> (BV, gate) of the square terms of a hash form; several unconditional bulk terms of one row are one term
+    over the XOR of their square sets (the table term is linear in the set).  Single-square terms SQUARE[row][i] under a gate
+    (a loop that visits the set bits one at a time) are the same thing spelled per square: they are folded into the row with
+    their gate as bit i."""
     out = {}
+    single = {}
     for sym, g in h.terms:
         if sym[0] == 'SQB':
             if sym[1] in out and out[sym[1]][1] is C1 and g is C1:
@@ -147,7 +150,20 @@ def sqb_terms(h):
                 out[sym[1]] = (BV([B.bxor(x, y) for x, y in zip(old.bits, sym[2].bits)]), C1)
             else:
                 out[sym[1]] = (sym[2], g)
+        elif _is_single(sym):
+            single.setdefault(sym[1], {})[sym[2]] = g
+    for row, d in single.items():
+        bits_ = [d.get(i, C0) for i in range(64)]
+        if row in out:
+            bv, g = out[row]
+            base = bv.bits if g is C1 else [B.band(g, x) for x in bv.bits]
+            bits_ = [B.bxor(x, y) for x, y in zip(base, bits_)]
+        out[row] = (BV(bits_), C1)
     return out
+
+
+def _is_single(sym):
+    return sym[0] == 'SQ' and len(sym) == 3 and isinstance(sym[1], int) and isinstance(sym[2], int) and 0 <= sym[2] < 64
 
 
 def exact_equal(x, y):
@@ -167,7 +183,8 @@ def exact_equal(x, y):
 
 
 def other_terms(h):
-    return {sym: g for sym, g in h.terms if sym[0] != 'SQB'}
+    """everything that is not a board-square term (those are compared row by row, see sqb_terms)"""
+    return {sym: g for sym, g in h.terms if sym[0] != 'SQB' and not _is_single(sym)}
 
 
 def same_bv_semantics(a, b):
@@ -375,6 +392,9 @@ def _exact_mode(prog, gold, step, s, d, row):
                 if sym[0] == 'SQB':
                     # a gated term toggles its squares only under the gate; several terms of one row add up (XOR)
                     bits_ = [B.band(g, x) for x in sym[2].bits]
+                    rows[sym[1]] = bits_ if sym[1] not in rows else [B.bxor(x, y) for x, y in zip(rows[sym[1]], bits_)]
+                elif _is_single(sym):
+                    bits_ = [g if i == sym[2] else C0 for i in range(64)]
                     rows[sym[1]] = bits_ if sym[1] not in rows else [B.bxor(x, y) for x, y in zip(rows[sym[1]], bits_)]
             for rw in range(12):
                 if rw in rows:
